@@ -29,7 +29,7 @@ From Coq Require Import Permutation.
 From Astisub Require Import Proofs.EolProofs Proofs.SsaFields Proofs.SsaText Proofs.SsaRows Proofs.SsaDoc Proofs.SsaInfo Proofs.SsaInfoOrder Proofs.SsaIgnore Proofs.SsaOrder Proofs.SsaRepr Proofs.SsaRead Proofs.SsaReadAny Proofs.SsaEvents Proofs.SsaWriteRender.
 From Astisub Require Import Proofs.SsaStyles Proofs.SsaRewrite Proofs.FuelSsa.
 From Astisub Require Import Kit.Chk Model.SsaC Proofs.SsaChk.
-From Astisub Require Import Proofs.SsaReadAll.
+From Astisub Require Import Proofs.SsaReadAll Proofs.SsaRewriteAll.
 Import ListNotations.
 
 (* ---- field codecs ---- *)
@@ -585,3 +585,20 @@ Print Assumptions C04_read_sections_again.
    Dialogue items (1.5 s - 3 s, two lines; 4 s - 5 s), both with style Main *)
 Example C04_read_sections_all_example : read_ssa_lines (adoc_lines z_info z_pre z_secs) false = Ok z_expected.
 Proof. exact z_read. Qed.
+
+(* ---- the second write after reading ANY document of C04_read_sections_all ----
+   sections in any order and number, preamble, unknown script-info keys, comments / junk / several Format lines inside the
+   styles and events sections, rows of other categories, unknown sections; side conditions on what the document denotes
+   only (as in C04_rewrite_rendered): at least one Dialogue row, representable styles none of which is named *Default,
+   Dialogue events in range and comma / break free with a text made of representable lines *)
+Theorem C04_rewrite_sections_all : forall b pre secs, info_ok b -> adoc_ok pre secs ->
+  comments_of (adoc_entries pre secs) = an_comments b -> (forall f, In (IK f) (adoc_entries pre secs)) ->
+  let sts := flat_map asec_styles secs in
+  let evs := filter is_dialogue (flat_map asec_events secs) in
+  Forall style_repr sts -> ~ In n_star_default (map ay_name sts) -> evs <> [] -> Forall event_image_ok evs ->
+  exists d, read_ssa_lines (adoc_lines b pre secs) false = Ok d /\
+    forall order, Permutation order (style_keys d) ->
+    exists data d', write_ssa d order = Ok data /\ read_ssa data = Ok d' /\
+                    (forall order', Permutation order' (style_keys d') -> write_ssa d' order' = Ok data).
+Proof. exact rewrite_sections_all. Qed.
+Print Assumptions C04_rewrite_sections_all.
